@@ -155,6 +155,28 @@ BitsOfPositions(ps) == MutExtendPositions(<< >>, ps)
 TruncAfterLastOne(B) == SubSeq(B, 1, SX!SelectLastInSeq(B, LAMBDA x : x = 1))
 
 ---------------------------------------------------------------------------
+(* Word-level utilities (C17).  A word is the ascending list of its set    *)
+(* bit positions.                                                          *)
+
+SelectInWord(w, k, width) == IF k < Len(w) THEN w[k + 1] ELSE width
+MsbOf(v) == IF SymBitLen(v) = 0 THEN 0 ELSE SymBitLen(v) - 1
+PopcntWide(ws, n) ==
+    LET F[j \in 0..MinI(n, Len(ws))] == IF j = 0 THEN 0 ELSE F[j - 1] + Len(ws[j])
+    IN  F[MinI(n, Len(ws))]
+\* the nb-bit digit of symbol s found at bit offset `shift`
+DigitAt(s, shift, nb) ==
+    IF nb = 2 THEN 2 * SymBitAt(s, shift + 1) + SymBitAt(s, shift) ELSE SymBitAt(s, shift)
+\* stable grouping of a sequence of symbols by that digit, in increasing digit order
+StablePartition(seq, shift, nb) ==
+    LET G(d) == SelectSeq(seq, LAMBDA x : DigitAt(x, shift, nb) = d)
+    IN  IF nb = 2 THEN G(0) \o G(1) \o G(2) \o G(3) ELSE G(0) \o G(1)
+\* order-preserving remap of byte values onto 0..d-1
+TextRemapSeq(bytes) ==
+    LET D == {bytes[i] : i \in 1..Len(bytes)}
+    IN  [i \in 1..Len(bytes) |-> Cardinality({x \in D : x < bytes[i]})]
+TextRemapSize(bytes) == Cardinality({bytes[i] : i \in 1..Len(bytes)})
+
+---------------------------------------------------------------------------
 (* Iterators.  A double-ended iterator over S is (f, b): the next front    *)
 (* element is S[f+1], the next back element S[b].                          *)
 
